@@ -175,6 +175,7 @@ fn run_trials(a: &Args) -> Report {
         let mode = if miri { 9 } else { t % 3 };
         let long_wait = mode == 0 && !recover_by_drop && r.chance(1, 100);
         let hold_recoverer = r.chance(1, 2);
+        let very_long = long_wait && r.chance(1, 3);
         // role 0 = recoverer, roles 1.. = emitters
         let mut rules = Vec::new();
         if mode == 0 {
@@ -184,7 +185,7 @@ fn run_trials(a: &Args) -> Report {
                 rules.push(Rule::new(1, "recoverable.after_upgrade", 1, 0, "@done", 1));
             } else {
                 // now and then the emission outlasts many failed attempts: into_inner must keep waiting, however long
-                rules.push(Rule::new(1, "recoverable.after_upgrade", 1, 0, "recoverable.into_inner.spin", if long_wait { 64 } else { 1 }));
+                rules.push(Rule::new(1, "recoverable.after_upgrade", 1, 0, "recoverable.into_inner.spin", if long_wait { if very_long { 70_000 } else { 64 } } else { 1 }));
             }
             rules.push(Rule::new(0, "@start", 1, 1, "recoverable.after_upgrade", 1));
             if !recover_by_drop && !long_wait && hold_recoverer {
@@ -329,7 +330,7 @@ fn run_trials(a: &Args) -> Report {
         if mode == 0 && ctx.unsat.load(Ordering::SeqCst) == 0 {
             windows += 1;
         }
-        let desc = jo! {"emitters" => nemit, "emissions_each" => per, "recover_by" => if recover_by_drop {"drop(handle)"} else {"into_inner"}, "linger_steps" => linger, "schedule_mode" => mode, "emission_outlasts_64_recovery_attempts" => long_wait};
+        let desc = jo! {"emitters" => nemit, "emissions_each" => per, "recover_by" => if recover_by_drop {"drop(handle)"} else {"into_inner"}, "linger_steps" => linger, "schedule_mode" => mode, "emission_outlasts_64_recovery_attempts" => long_wait, "emission_outlasts_70000_recovery_attempts" => very_long};
         rep.case(mix(sig, mix(rcall, rret) ^ emissions.len() as u64), nemit >= 1);
         let log = obs.log.lock().unwrap().clone();
         let reached: std::collections::HashMap<u64, (u64, u64)> = log.iter().map(|(id, en, ex)| (*id, (*en, *ex))).collect();
